@@ -161,6 +161,9 @@ pub struct Gen<'t> {
     counter: u32,
     ctes: Vec<CteInfo>,
     pub max_product: u64,
+    /// lean on shared materializations: always define CTEs (mostly
+    /// MATERIALIZED), reference them often, combine references with UNION
+    pub cte_bias: bool,
     /// >0 while generating inside an aggregate argument: only columns of the
     /// innermost query may be used (an aggregate over outer columns belongs to
     /// the outer query in SQL)
@@ -230,7 +233,7 @@ pub fn gen_tables(rng: &mut Rng, max_rows: usize) -> Vec<TableDef> {
 
 impl<'t> Gen<'t> {
     pub fn new(rng: Rng, tables: &'t [TableDef], f: Features) -> Self {
-        Gen { rng, tables, views: Vec::new(), f, max_depth: 3, counter: 0, ctes: Vec::new(), max_product: 60_000, no_outer: 0 }
+        Gen { rng, tables, views: Vec::new(), f, max_depth: 3, counter: 0, ctes: Vec::new(), max_product: 60_000, cte_bias: false, no_outer: 0 }
     }
 
     fn fresh(&mut self, p: &str) -> String {
@@ -662,6 +665,9 @@ impl<'t> Gen<'t> {
         let mut opts: Vec<u32> = vec![0, 0, 0, 0];
         if !self.ctes.is_empty() {
             opts.extend([1, 1, 1]);
+            if self.cte_bias {
+                opts.extend([1, 1, 1, 1, 1, 1]);
+            }
         }
         if !self.views.is_empty() {
             opts.extend([5, 5]);
@@ -957,7 +963,7 @@ impl<'t> Gen<'t> {
     fn gen_query_inner(&mut self, outer: Option<&Scope>, want: Option<&[Ty]>, depth: u32, _lateral: bool) -> Query {
         let saved_ctes = self.ctes.len();
         let mut ctes = Vec::new();
-        if self.f.cte && depth > 0 && outer.is_none() && self.rng.chance(1, 3) {
+        if self.f.cte && depth > 0 && outer.is_none() && (self.rng.chance(1, 3) || (self.cte_bias && depth == self.max_depth)) {
             let n = 1 + self.rng.usize_below(2);
             for _ in 0..n {
                 let q = self.gen_query_inner(None, None, depth - 1, false);
@@ -965,12 +971,12 @@ impl<'t> Gen<'t> {
                 let cols: Vec<(String, Ty)> = q.out.iter().map(|(_, t)| (self.fresh("x"), *t)).collect();
                 let col_aliases = Some(cols.iter().map(|c| c.0.clone()).collect());
                 self.ctes.push(CteInfo { name: name.clone(), cols, est: 20 });
-                ctes.push(Cte { name, q: Box::new(q), materialized: self.rng.chance(1, 3), col_aliases });
+                ctes.push(Cte { name, q: Box::new(q), materialized: if self.cte_bias { self.rng.chance(2, 3) } else { self.rng.chance(1, 3) }, col_aliases });
             }
         }
         let (sel, out) = self.gen_select(outer, want, depth);
         let mut body = SetExpr::Select(Box::new(sel));
-        if self.f.union && depth > 0 && self.rng.chance(1, 6) {
+        if self.f.union && depth > 0 && (self.rng.chance(1, 6) || (self.cte_bias && depth == self.max_depth && !ctes.is_empty() && self.rng.chance(1, 2))) {
             let tys: Vec<Ty> = out.iter().map(|o| o.1).collect();
             let (sel2, _) = self.gen_select(outer, Some(&tys), depth - 1);
             body = SetExpr::Union { all: self.rng.chance(1, 2), left: Box::new(body), right: Box::new(SetExpr::Select(Box::new(sel2))) };
